@@ -67,7 +67,9 @@ func NewChannel(
 		PromptPattern:     getPromptPattern(),
 		ReturnChar:        []byte(DefaultReturnChar),
 
-		done: make(chan struct{}),
+		done:         make(chan struct{}),
+		readLoopDone: make(chan struct{}),
+		closeOnce:    &sync.Once{},
 
 		Q:    util.NewQueue(),
 		Errs: make(chan error),
@@ -107,7 +109,11 @@ type Channel struct {
 	PromptPattern     *regexp.Regexp
 	ReturnChar        []byte
 
-	done chan struct{}
+	// done is closed (once, by Close) to ask the read loop to stop, readLoopDone is closed by the
+	// read loop when it returns.
+	done         chan struct{}
+	readLoopDone chan struct{}
+	closeOnce    *sync.Once
 
 	Q              *util.Queue
 	Errs           chan error
@@ -136,6 +142,12 @@ func (c *Channel) Open() (reterr error) {
 	}()
 
 	c.l.Debug("starting channel read loop")
+
+	// fresh shutdown signalling for this open, Close consumes it
+	c.done = make(chan struct{})
+	c.readLoopDone = make(chan struct{})
+	c.closeOnce = &sync.Once{}
+	c.readLoopExited.Store(false)
 
 	go c.read()
 
@@ -180,26 +192,28 @@ func (c *Channel) Open() (reterr error) {
 	return nil
 }
 
-// Close signals to stop the channel read loop and closes the underlying Transport object.
+// Close signals to stop the channel read loop and closes the underlying Transport object. Calling
+// Close again on an already closed Channel is a noop.
 func (c *Channel) Close() error {
+	var err error
+
+	c.closeOnce.Do(func() {
+		err = c.close()
+	})
+
+	return err
+}
+
+func (c *Channel) close() error {
 	c.l.Info("channel closing...")
 
-	close(c.Errs)
-
-	ch := make(chan struct{})
-
-	if !c.readLoopExited.Load() {
-		go func() {
-			defer close(ch)
-
-			c.done <- struct{}{}
-		}()
-	} else {
-		close(ch)
-	}
+	// closing (rather than sending on) done means the read loop sees it whenever it looks next,
+	// including while it is waiting to hand a transport error to an operation, and nothing is left
+	// blocked if the read loop has already exited.
+	close(c.done)
 
 	select {
-	case <-ch:
+	case <-c.readLoopDone:
 		c.l.Debug("closing underlying transport...")
 
 		return c.t.Close(false)
